@@ -33,6 +33,7 @@ def check(run, prog, tier):
     run.rule("C09-B", "additivity bookkeeping of add_to_data/add_to_data2/__add__", minimum=14)
     run.rule("C09-C", "component builders accumulate and register their temperature", minimum=12)
     run.rule("C09-D", "external APIs and attributes of self used by the builders exist", minimum=10)
+    run.rule("C09-F", "running integrals of bath functions are taken with respect to their axis", minimum=4)
     run.rule("C09-E", "builders use the energy parameters in the unit system they receive them in (unit-state "
                       "typing of the parameter dictionaries)", minimum=10)
     rule_A(run, prog)
@@ -40,6 +41,7 @@ def check(run, prog, tier):
     rule_C(run, prog)
     rule_D(run, prog)
     rule_E(run, prog)
+    rule_F(run, prog)
 
 
 # ----------------------------------------------------------------------
@@ -310,6 +312,44 @@ def rule_C(run, prog):
              and any(isinstance(x, ast.Raise) for x in n.body) for n in ast.walk(f.node))
     run.obligation(rid, "CorrelationFunction._set_temperature_and_cutoff_time", ok, key="refuse",
                    message="inconsistent component temperatures must be refused", loc=f.loc())
+
+
+def rule_F(run, prog):
+    """'The reorganisation energy recovered from the data equals the declared one' goes through the
+    running integrals c2h / h2g / c2g and SpectralDensity.measure_reorganization_energy.  Every
+    integration call in them must carry the spacing of the axis: a spline built on the axis data, or a
+    quadrature routine given x= (the axis data) or dx= (its step); a quadrature call without either
+    integrates with unit spacing and scales the result by 1/step."""
+    rid = "C09-F"
+    QUAD = ("trapz", "trapezoid", "cumtrapz", "cumulative_trapezoid", "simps", "simpson", "cumulative_simpson", "romb")
+    targets = [CF + "c2h", CF + "h2g", CF + "c2g", SD + "SpectralDensity.measure_reorganization_energy"]
+    n = 0
+    for q in targets:
+        try:
+            f = prog.func(q)
+        except Exception:
+            continue
+        calls = [c for c in ast.walk(f.node) if isinstance(c, ast.Call)]
+        for c in calls:
+            cn = call_name(c)
+            if cn == "UnivariateSpline":
+                n += 1
+                ok = bool(c.args) and any(isinstance(x, ast.Attribute) and x.attr == "data" for x in ast.walk(c.args[0]))
+                run.obligation(rid, f.short, ok, key="spline-on-axis:" + norm(c)[:40],
+                               message="the spline that is integrated must be built on the axis data, found %s" % norm(c)[:70],
+                               loc=f.loc(c), sample={"call": norm(c)[:60]})
+            elif cn in QUAD:
+                n += 1
+                ok = len(c.args) >= 2 or any(k.arg in ("x", "dx") for k in c.keywords)
+                run.obligation(rid, f.short, ok, key="quadrature-spacing:" + norm(c)[:40],
+                               message="%s integrates with unit spacing: neither x= (axis data) nor dx= (axis step) is "
+                                       "given, the integral is off by the factor 1/step" % norm(c)[:70],
+                               loc=f.loc(c), sample={"call": norm(c)[:60]})
+        # the function must integrate at all
+        if not any(call_name(c) in QUAD + ("UnivariateSpline", "c2h", "h2g", "antiderivative", "integral") for c in calls):
+            raise AnalysisError("%s: no integration call found" % f.short)
+    if n < 4:
+        raise AnalysisError("only %d integration calls found in the running-integral helpers (4 confirmed)" % n)
 
 
 def rule_E(run, prog):
